@@ -730,7 +730,7 @@ pub fn replay(prop: &str, case: &ConcCase) -> Option<String> {
     match verdict_for(&spec, case, &out) {
         Verdict::Fail(m) => Some(m),
         Verdict::Known(k) => {
-            println!("(known finding {k})");
+            println!("KNOWN-FINDING: property={prop} {k}: reproduced by this replay file (listed in known_findings.json)");
             None
         }
         v => {
